@@ -11,7 +11,6 @@ import (
 	"golang.org/x/tools/go/ssa"
 
 	"verif/tools/internal/absint"
-	"verif/tools/internal/core"
 )
 
 // The SQL side is analysed as a set of roots connected by checked interface
@@ -235,9 +234,9 @@ func (sr *sqlRoots) lexerReturnHook(root *ssa.Function, pos0 absint.Lin, length 
 		}
 		iv, ok := val.(absint.IntV)
 		good := ok && e.ProveLE(st, pos0.AddK(1), iv.L)
-		e.Check(st, fr, ret.Pos(), "P-step", "lexer consumes ≥ 1 byte: "+core.Short(ret.String()), good, "cannot show ret ≥ pos@entry + 1: a scan step that consumes nothing never terminates")
+		e.Check(st, fr, ret.Pos(), "P-step", "lexer consumes ≥ 1 byte: "+retLabel(ret), good, "cannot show ret ≥ pos@entry + 1: a scan step that consumes nothing never terminates")
 		good = ok && e.ProveLE(st, iv.L, length)
-		e.Check(st, fr, ret.Pos(), "P-step", "lexer stays inside the input: "+core.Short(ret.String()), good, "cannot show ret ≤ length")
+		e.Check(st, fr, ret.Pos(), "P-step", "lexer stays inside the input: "+retLabel(ret), good, "cannot show ret ≤ length")
 	}
 }
 
@@ -316,7 +315,7 @@ func (sr *sqlRoots) runAll(extra func(name string, hooks *absint.Hooks)) {
 			if fr.Fn() != tokenize || fr.Depth() != 0 {
 				return
 			}
-			where := core.Short(ret.String())
+			where := retLabel(ret)
 			ps, ok := e.CellOf(st, S, sr.field("sql.state.pos"))
 			pi, okI := ps.(absint.IntV)
 			b, _ := val.(absint.BoolV)
@@ -350,7 +349,7 @@ func (sr *sqlRoots) runAll(extra func(name string, hooks *absint.Hooks)) {
 				return
 			}
 			iv, ok := val.(absint.IntV)
-			e.Check(st, fr, ret.Pos(), "I-post", "fold result within [0, maxTokens+1]: "+core.Short(ret.String()), ok && e.ProveLE(st, absint.K(0), iv.L) && e.ProveLE(st, iv.L, absint.K(int64(sr.maxFingerprint()+1))), "cannot bound the number of folded tokens")
+			e.Check(st, fr, ret.Pos(), "I-post", "fold result within [0, maxTokens+1]: "+retLabel(ret), ok && e.ProveLE(st, absint.K(0), iv.L) && e.ProveLE(st, iv.L, absint.K(int64(sr.maxFingerprint()+1))), "cannot bound the number of folded tokens")
 		}
 		if extra != nil {
 			extra("fold", &cfg.Hooks)
